@@ -52,6 +52,18 @@ TransFine == {N(s, c, e) : s \in {0, 1}, c \in {C1, C2, C3, C4, C5, C9, <<2, 5>>
 TransDeep == IF Deep THEN {N(s, c, e) : s \in {0, 1}, c \in {G17, G34, T34, C7}, e \in (0 - 40)..(0 - 28)} \cup {N(0, c, e) : c \in {G34, C7, N33}, e \in {0 - 6170, 0 - 3000, 0 - 300, 0 - 36, 0 - 34, 0 - 10, 0, 5, 300, 3000, 6110}}
              ELSE {}
 
+\* inexact powers (DecimalExp!AcceptPow): bases next to 1, moderate, at the ends of the range; fractional, tiny and large exponents
+One33p == C1 \o Rep(0, 32) \o C1                 \* 1.000...0001 (34 digits)
+PowFracBases == {N(0, C2, 0), N(0, C1, 1), N(0, C15, 0 - 1), N(0, C5, 0 - 1), N(0, One33p, 0 - 33), N(0, N34, 0 - 34), N(0, G34, 0 - 33), N(0, G17, 0 - 8)}
+   \cup (IF Deep THEN {N(0, N34, 6111), N(0, C1, 0 - 6143), N(0, C7, 0 - 6176), N(0, C3, 0), N(0, G34, 0 - 30), N(0, C1 \o Rep(0, 15) \o C1, 0 - 16), N(0, N17, 0 - 17), N(0, C25, 2)} ELSE {})
+PowFracExps == {N(0, C5, 0 - 1), N(1, C5, 0 - 1), N(0, C15, 0 - 1), N(0, Rep(3, 34), 0 - 34), N(0, G17, 0 - 16), N(1, G34, 0 - 32), N(0, C1, 0 - 34)}
+   \cup (IF Deep THEN {N(0, C1, 33), N(1, C1, 34), N(0, C25, 0 - 2), N(0, G34, 0 - 30), N(0, C7, 0 - 40), N(0, G17, 0 - 10), N(1, C15, 3), N(0, <<1, 0, 0, 0, 5>>, 0 - 1)} ELSE {})
+PowPairs == {<<a, b>> : a \in PowFracBases, b \in PowFracExps}
+   \cup {<<N(0, One33p, 0 - 33), N(0, C1, 33)>>, <<N(0, One33p, 0 - 33), N(0, C7, 36)>>, <<N(0, N34, 0 - 34), N(0, C1, 34)>>, <<N(0, N34, 0 - 34), N(1, C3, 37)>>,
+          <<N(0, N34, 6111), N(0, Rep(9, 7), 0 - 7)>>, <<N(0, N34, 6111), N(0, C1 \o Rep(0, 6) \o C1, 0 - 7)>>, <<N(0, C1, 0 - 6143), N(0, C5, 0 - 1)>>,
+          <<N(0, C2, 0), N(0, <<2, 0, 4, 1, 0, 5>>, 0 - 1)>>, <<N(0, C2, 0), N(1, <<2, 0, 4, 1, 0, 5>>, 0 - 1)>>, <<N(0, C5, 0 - 1), N(0, <<2, 0, 0, 0, 0, 5>>, 0 - 1)>>}
+
+ASSUME PrintT(<<"POWPAIRS", ToJson(PowPairs)>>)
 ASSUME PrintT(<<"OPERANDS", ToJson([core |-> Core, wide |-> Wide, partners |-> Partners, scales |-> Scales,
                                      powbases |-> PowBases, powexps |-> PowExps, trans |-> Trans, transfine |-> TransFine \cup TransDeep])>>)
 VARIABLE x
